@@ -143,7 +143,9 @@ pub fn session(id: &str, lines: &[String], emit: &mut dyn FnMut(String)) {
         let obs = observe(&p, base);
         // rewrite step requests with the observed parameters
         let req = match t.get(1).copied() {
-            Some("step") => format!("{req} {}", obs.k_all),
+            // `out`: the step ended outside the executable (libc / ld.so), which the trace machine does not describe
+            Some("step") => format!("{req} {}{}", obs.k_all, if ans == "done out" { " out" } else { "" }),
+            Some("stepi") => format!("{req}{}", if ans == "done out" { " out" } else { "" }),
             Some("next") | Some("finish") => format!("{req} {} {}", enc_list(&obs.temps, |a| format!("{a:x}")), obs.k_tail),
             _ => req,
         };
